@@ -28,7 +28,12 @@ def pair(spec):
     obs, p, ra = a["obs"], a["problem"], a["results"][0]
     if ra is None:
         return {"skip": True, "spec": spec, "why": a["err"]}
-    s = obs.scale
+    # the factor the scaler returns for this start point (known even if the run never invoked it)
+    if spec["scaler"] == "unit":
+        x0c = np.clip(p.x0, p.lb, p.ub)
+        s = float(lbfgsb.get_gradient_projection_unit_scaling(x0c, np.asarray(p.grad(x0c), float), p.lb, p.ub))
+    else:
+        s = float(spec["scaler"])
     if not (np.isfinite(s) and 1e-6 <= s <= 1e6):
         # the property quantifies over scalers returning a finite s > 0 (the packaged scaler returns inf when the
         # projected gradient at x0 vanishes)
@@ -46,9 +51,54 @@ def pair(spec):
         ft = obs._ftarget_val * s
     rb = lbfgsb.minimize_lbfgsb(x0=p.x0, fun=lb.fun, jac=lb.grad, bounds=p.bounds, ftarget=ft,
                                 gtol=spec.get("gtol", ["float", 1e-5])[1], **kw)
-    tr = equiv.merge("C17", True, log_a, lb.pts, equiv.result_fields(ra, rb, exact=True))
-    return {"skip": False, "spec": spec, "equiv": tr, "driver": a["trace"], "s": s,
+    fields = equiv.result_fields(ra, rb, exact=True)
+    fields["scaler_invoked_once"] = obs.calls["scaler"] == 1
+    tr = equiv.merge("C17", True, log_a, lb.pts, fields)
+    # the target already met at the start point: the run returns before computing a gradient (relation named for the
+    # known-findings file)
+    rel = "target-met-at-start" if (ra.nit == 0 and obs.calls["scaler"] == 0 and "TARGET" in ra.message) else "run"
+    return {"skip": False, "spec": spec, "equiv": tr, "driver": a["trace"], "s": s, "relation": rel,
             "msgs": [ra.message, rb.message], "nev": [len(log_a), len(lb.pts)]}
+
+
+def restart_pair(spec):
+    """A run with a scaler stopped at iteration k and restarted (same arguments, same scaler) vs the uninterrupted run."""
+    import warnings
+
+    warnings.simplefilter("ignore")
+    np.seterr(all="ignore")
+    import lbfgsb
+
+    p = corpus.make_problem(spec)
+    kw = dict(spec["kwargs"])
+    sval = float(spec["scaler"])
+    sc = lambda x, g, lb, ub: sval   # noqa: E731
+    full = equiv.EvalLog(p.fun, p.grad)
+    rfull = lbfgsb.minimize_lbfgsb(x0=p.x0, fun=full.fun, jac=full.grad, bounds=p.bounds, gradient_scaler=sc, **kw)
+    k = spec["k"]
+    lk = equiv.EvalLog(p.fun, p.grad)
+    rk = lbfgsb.minimize_lbfgsb(x0=p.x0, fun=lk.fun, jac=lk.grad, bounds=p.bounds, gradient_scaler=sc, **dict(kw, maxiter=k))
+    if rfull.nit <= k or rk.nit != k or not rk.message.startswith("STOP: TOTAL NO. of ITERATIONS"):
+        return {"skip": True, "spec": spec, "why": "split point not reached"}
+    sk = np.atleast_2d(rk.hess_inv.sk)
+    anchored = bool(sk.size > 0 and any(np.array_equal(rk.x - pt[1], sk[-1]) for pt in lk.pts))
+    if not anchored:
+        # a checkpoint whose last memory update was rejected restarts differently with or without a scaler
+        # (KF-C06-restart-after-rejected-update): not this relation's subject
+        return {"skip": True, "spec": spec, "why": "unanchored checkpoint"}
+    lr = equiv.EvalLog(p.fun, p.grad)
+    try:
+        rr = lbfgsb.minimize_lbfgsb(x0=np.array(rk.x, copy=True), fun=lr.fun, jac=lr.grad, bounds=p.bounds, gradient_scaler=sc,
+                                    checkpoint=rk, **kw)
+    except Exception as ex:  # noqa: BLE001
+        tr = equiv.merge("C17_Restart", False, [], [], {"no_exception_" + type(ex).__name__: False})
+        return {"skip": False, "spec": spec, "equiv": tr, "driver": None, "s": sval, "relation": "scaler-restart", "msgs": [repr(ex)], "nev": [0, 0]}
+    tail = full.pts[len(lk.pts):]
+    fields = {"fun_is_scaled_value_of_x": bool(np.isclose(rr.fun, sval * float(p.fun(rr.x)), rtol=1e-9, atol=1e-300)),
+              "not_abnormal_when_uninterrupted_run_is_not": bool(rfull.status == 2 or rr.status != 2)}
+    tr = equiv.merge("C17_Restart", False, tail, equiv.strip_cached(lr.pts, rk.x), fields, limit=4, rtol=1e-6)
+    return {"skip": False, "spec": spec, "equiv": tr, "driver": None, "s": sval, "relation": "scaler-restart",
+            "msgs": [rfull.message, rr.message], "nev": [len(tail), len(lr.pts)]}
 
 
 def specs(ctx):
@@ -63,6 +113,24 @@ def specs(ctx):
         if "ftarget" in s:
             s["ftarget"] = ["float", s["ftarget"][1]]
         out.append(s)
+    # the target already met at the start point (the run returns before any gradient is computed)
+    for i in range(ctx.pick(20, 200)):
+        s = corpus.rand_spec(rng, problems.CONVEX, nmax=6, allow_cb=False, allow_gcall=False, allow_target=False, small_budgets=False)
+        s["scaler"] = float(10 ** rng.uniform(-2, 2))
+        s["start"] = "interior"
+        s["ftarget"] = ["float", 0.5]
+        out.append(s)
+    return out
+
+
+def restart_specs(ctx):
+    rng = np.random.default_rng([ctx.seed, 171])
+    out = []
+    for i in range(ctx.pick(60, 600)):
+        out.append({"family": (problems.CONVEX + ["rosenbrock", "qpcos"])[i % 5], "n": int(rng.integers(2, 8)),
+                    "pseed": int(rng.integers(1 << 30)), "cond": float(10 ** rng.uniform(0, 2)), "start": "interior",
+                    "scaler": float(10 ** rng.uniform(-2, 2)) if i % 6 else 1.0, "k": int(rng.integers(1, 6)),
+                    "kwargs": {"maxcor": int(rng.choice([1, 3, 10])), "ftol": 0.0, "gtol": 1e-10, "maxiter": 10, "maxfun": 500, "maxls": 20}})
     return out
 
 
@@ -70,12 +138,21 @@ def run(ctx):
     drivercheck.design(ctx)
     with mp.get_context("fork").Pool(NCPU) as pool:
         res = pool.map(pair, specs(ctx), chunksize=4)
+        res2 = pool.map(restart_pair, restart_specs(ctx), chunksize=4)
     res = [r for r in res if not r["skip"]]
+    res2 = [r for r in res2 if not r["skip"]]
+    v3 = validate(ctx, [r["equiv"] for r in res2], module="Equiv", name="equiv-scaler-restart")
+    for r, a in zip(res2, v3):
+        for c in sorted(a):
+            ctx.violation(c, {"kind": "scaler-equivalence", "relation": r["relation"], "spec": r["spec"], "s": r["s"],
+                              "scale_is_one": bool(r["s"] == 1.0), "messages": r["msgs"], "evaluations": r["nev"],
+                              "summary": f"restart with a scaler: {r['spec']['family']} n={r['spec']['n']} s={r['s']:.3g} k={r['spec']['k']} msgs={r['msgs']}"})
+    ctx.cov["scaler_restart_pairs"] = len(res2)
     v1 = validate(ctx, [r["equiv"] for r in res], module="Equiv", name="equiv-scaler")
     v2 = validate(ctx, [r["driver"] for r in res], name="driver-scaler")
     for r, a, b in zip(res, v1, v2):
         for c in sorted(a | {x for x in b if x.startswith(PREFIX)}):
-            ctx.violation(c, {"kind": "scaler-equivalence", "spec": r["spec"], "s": r["s"], "messages": r["msgs"],
+            ctx.violation(c, {"kind": "scaler-equivalence", "relation": r["relation"], "spec": r["spec"], "s": r["s"], "messages": r["msgs"],
                               "evaluations": r["nev"],
                               "summary": f"{r['spec']['family']} n={r['spec']['n']} s={r['s']:.3g} msgs={r['msgs']} nev={r['nev']}"})
     ctx.add_counts(evaluations=2 * len(res), distinct_nontrivial=len({json.dumps(r["spec"], sort_keys=True) for r in res}))
